@@ -13,6 +13,11 @@ from .common import GEOM, ALLOC, stmt_calls, exit_facts, facts_text, call_name, 
 from .C02 import splitter_role, griddify_index_check, griddify_loops, SPLITS
 
 CELL = ("k", "cell")
+from framelint.canon import canon_function as _canon_function_expanded
+
+def canon_function(fi, model=None, opts=None):   # rules of this file match shapes: look through every local
+    return _canon_function_expanded(fi, model, opts, expand=True)
+
 
 
 @rule("C12", "R1.decision-predicate", "PRED-EQ",
